@@ -182,6 +182,13 @@ namespace vf::prog {
                     ev.waiters.push_back(w);
                 }
                 if (ev.waiters.empty()) continue;
+                // A timed wait is a yield-until-deadline polling loop: under strict priority scheduling
+                // a polling waiter above its signaller's priority may starve it forever (legal pika
+                // behaviour, not a dropped task).  Polling waits are therefore only given to
+                // low-priority waiters (the low-priority queue is served last and FIFO).
+                if (ev.kind == 4)
+                    for (int w : ev.waiters)
+                        if (p.tasks[static_cast<std::size_t>(w)].prio != 1) ev.kind = 2;
                 int id = static_cast<int>(p.events.size());
                 // signal: anywhere in the signaller's ops
                 {
@@ -244,6 +251,7 @@ namespace vf::prog {
         Ledger led;
         std::vector<std::unique_ptr<EventRt>> evs;
         std::vector<std::unique_ptr<pika::thread>> joinable;    // index = task
+        std::vector<std::unique_ptr<pika::latch>> done;          // fallback for joins on non-joinable threads
         std::atomic<int> not_joinable{0};
         std::function<void(int)> body_hook;                      // extra per-segment check (C05: suspended flag)
 
@@ -262,6 +270,9 @@ namespace vf::prog {
                 evs.push_back(std::move(r));
             }
             joinable.resize(p.tasks.size());
+            done.resize(p.tasks.size());
+            for (std::size_t i = 0; i < p.tasks.size(); ++i)
+                if (p.tasks[i].method == M_THREAD_JOINED) done[i] = std::make_unique<pika::latch>(1);
         }
 
         static pika::execution::thread_priority prio_of(int k)
@@ -425,7 +436,7 @@ namespace vf::prog {
                         // A freshly constructed pika::thread that is not joinable is C13's business
                         // (known finding there); for the program's progress fall back to polling.
                         not_joinable.fetch_add(1);
-                        while (led.finished[static_cast<std::size_t>(o.arg)].load() != 1) pika::this_thread::yield();
+                        done[static_cast<std::size_t>(o.arg)]->wait();
                     }
                     seg_enter(i);
                     led.blocked_now.fetch_sub(1);
@@ -444,6 +455,7 @@ namespace vf::prog {
             }
             seg_leave(i);
             led.finished[static_cast<std::size_t>(i)].fetch_add(1);
+            if (done[static_cast<std::size_t>(i)]) done[static_cast<std::size_t>(i)]->count_down(1);
         }
 
         std::string diagnose() const
